@@ -471,8 +471,7 @@ void Variable::removeEquivalenceConnectionId(const VariablePtr &variable1, const
 {
     if ((variable1 != nullptr) && (variable2 != nullptr)) {
         if (variable1->hasEquivalentVariable(variable2, true)) {
-            variable1->pFunc()->setEquivalentConnectionId(variable2, "");
-            variable2->pFunc()->setEquivalentConnectionId(variable1, "");
+            setEquivalenceConnectionId(variable1, variable2, "");
         }
     }
 }
